@@ -30,6 +30,9 @@ Ops_trim2 == {"trim2", "refby", "refine", "trim", "hierand"}
 Ops_deep == {"refine", "refby", "hierand", "select", "remove", "slice", "trim"}
 Ref_2 == {2}
 Bases_trim2 == {BaseRec("rect21", 2), BaseRec("mp21", 1)}
+\* hierarchical intersections of topologies of DIFFERENT depth: refined_by, then refined_by & refined_by
+Bases_hier == {BaseRec("rect21", 2), BaseRec("line3", 2)}
+Ops_hier == {"refby", "hierand"}
 
 View == <<base, cells, comp, st, sg>>
 Emit(x) == PrintT(<<"VF", ToJson(x)>>)
